@@ -617,10 +617,14 @@ class Engine:
     def unroll_while(self, node, st, k):
         """No invariant for this loop (e.g. the code was edited): explore up to UNROLL
         iterations.  Refutations found this way are real paths; a proof is not claimed."""
-        self.incomplete.append(f"{self.cur.qualname} while-loop #{k}: unrolled {UNROLL} iterations, no invariant")
         outs = []
         live = [st]  # states whose test was true
-        for it in range(UNROLL):
+        for it in range(UNROLL + 1):
+            if not live:
+                break
+            if it == UNROLL:
+                self.incomplete.append(f"{self.cur.qualname} while-loop #{k}: paths needing more than {UNROLL} iterations were not explored (no invariant)")
+                break
             nxt = []
             for s in live:
                 self.loop_ord = k + 1
@@ -643,7 +647,6 @@ class Engine:
         return outs
 
     def unroll_for(self, node, st, it, k, lo, hi, elem):
-        self.incomplete.append(f"{self.cur.qualname} for-loop #{k}: unrolled {UNROLL} iterations, no invariant")
         outs = []
         live = [st]
         for j in range(UNROLL + 1):
@@ -655,6 +658,7 @@ class Engine:
                         outs.append((s1, None))
                         continue
                     if j == UNROLL:
+                        self.incomplete.append(f"{self.cur.qualname} for-loop #{k}: paths needing more than {UNROLL} iterations were not explored (no invariant)")
                         continue
                     self.loop_ord = k + 1
                     for s2, c in self.assign(node.target, elem(s1, idx), s1):
